@@ -400,8 +400,8 @@ def run(ctx):
         names = name_table(lang)
         names_total += len(names)
         full3 = (not quick) and lang == "en"
-        stride = 1 if full3 else (200 if quick else 10)
-        stride2 = 10 if quick else 1
+        stride = 1 if full3 else (300 if quick else 10)
+        stride2 = 15 if quick else 1
         res = tlc.run(ctx, "MagicCalls", MC_CFG % dict(mode="calls", nnames=len(names), arity=3, stride=stride, stride2=stride2,
                                                        phase=ctx.seed + li, maxlex=1),
                       name="MagicCalls_%s" % lang, timeout=2400, heap="10g")
@@ -451,7 +451,7 @@ def run(ctx):
                   rule="(1) every terminal behaviour of TemplateVM.tla (all call graphs on NT templates with bodies of <= 2 items, 33 pages, "
                        "Limit in {2,3,4}; plans %r) replayed on the real Expander — non-trivial = nesting deeper than 2; (2) every call "
                        "TLC enumerates from MagicCalls.tla over the name table generated from the running code for sites %r (arity 0..2 "
-                       "complete in thorough; in quick arity 0..1 complete, arity 2 / 3 thinned by strides 10 / 200) — each is a distinct (name, shapes) input; (3) every "
+                       "complete in thorough; in quick arity 0..1 complete, arity 2 / 3 thinned by strides 15 / 300) — each is a distinct (name, shapes) input; (3) every "
                        "sequence of <= 3 lexemes over the 23-lexeme template alphabet, as page and as template body" % (vm_plans, langs))
     for c in vm_cases[:: max(1, len(vm_cases) // 2)][:2]:
         ctx.sample({"univ": c["univ"], "page": c["page"], "limit": c["limit"], "predicted_out": c["out"], "predicted_lookups": c["log"]})
